@@ -148,7 +148,7 @@
         kani::cover!(!err);
     }
 
-    // @harness ids=C10,C03,C01 tier=thorough kind=proof units=outstation::database::details::event::write_fn::write_cto,master::convert::Group4Var3::to_measurement timeout=300 note="g4v3, same contract as g2v3 for DoubleBitBinaryInput (state code in bits 7..6)"
+    // @harness ids=C10,C03,C01 tier=quick kind=proof units=outstation::database::details::event::write_fn::write_cto,master::convert::Group4Var3::to_measurement timeout=300 note="g4v3, same contract as g2v3 for DoubleBitBinaryInput (state code in bits 7..6)"
     #[kani::proof]
     #[kani::unwind(9)]
     fn vk_c10_write_cto_g4v3_n7() {
